@@ -93,6 +93,10 @@ func K9(rc *RC, fams map[string][]*Member, floor int) {
 				rc.S.Ok("K9", key, pos, strings.ReplaceAll(strings.TrimSpace(got), "\n", " | "))
 				continue
 			}
+			if !sameSkeleton(got, want) {
+				rc.S.Undec("K9", key, pos, fmt.Sprintf("the kernel no longer has the statement skeleton of its table definition (restructured: %s); its terms are not compared", firstDiff(got, want)))
+				continue
+			}
 			o := rc.S.Viol("K9", key, pos, fmt.Sprintf("reduction kernel differs from its table definition: %s", firstDiff(got, want)))
 			o.Sig = lineDiff(got, want)
 		}
